@@ -74,9 +74,12 @@ def _run_main(ctx):
         for i, x in enumerate(rows):
             eff = [e for e in x.effects if e.startswith(H0) or e == 'loop {']  # sends and the chunk loop, in order
             r.check('row%d:header-first' % i, eff[:2] == [hdr, 'loop {'], site, built=eff[:2], expected=[hdr, 'loop {'])
-        evs, _ = ctx.events(SC)
+        evs, ret_ = ctx.events(SC)
         tr = [e for e in evs if e.kind == 'try']
-        r.check('errors-propagated', len(tr) == 3, site, built=[S.show(e.term)[:80] for e in tr], expected='every send followed by `?`')
+        sends = [e for e in evs if e.kind == 'call' and e.callee.startswith(H0 + 'send_content_')]
+        # every send's Result is handed on: by `?`, or by being the function's own result
+        handed = [e for e in sends if any(t_.term[1] == e.term for t_ in tr) or S.show(e.term) in S.show(ret_)]
+        r.check('errors-propagated', len(sends) == 3 and len(handed) == 3, site, built=[S.show(e.term)[:80] for e in sends if e not in handed], expected='every send followed by `?` (or returned)')
         rows2 = P.table(ctx, H0 + 'send_content_header', ['self', 'class_id', 'len', 'properties'])
         r.check('handle:header-frame', len(rows2) == 1 and 'serialize::OutputBuffer::push_content_header(self.buf, self.channel_id, class_id, len, properties)' in rows2[0].effects, ctx.site(H0 + 'send_content_header'),
                 built=[x.effects for x in rows2])
@@ -112,7 +115,8 @@ def _run_main(ctx):
             te = [e for e in tail[0].effects if e.startswith(H0 + 'send_content_body')]
             r.eq('tail-sent', te, [H0 + 'send_content_body(self.handle, %s)' % CUR], site, why='the final partial chunk')
             r.check('no-empty-frame', not [e for e in none[0].effects if 'send_content_body' in e], site, built=none[0].effects, why='no body frame for an empty rest (and none at all for an empty body)')
-            r.check('both-ok', tail[0].value_str() == 'Ok(())' and none[0].value_str() == 'Ok(())', site)
+            r.check('both-ok', tail[0].value_str() in ('Ok(())', H0 + 'send_content_body(self.handle, %s)' % CUR) and none[0].value_str() == 'Ok(())', site,
+                    built=(tail[0].value_str(), none[0].value_str()), expected='Ok(()) (or the last send\'s own result)')
         rows2 = P.table(ctx, H0 + 'send_content_body', ['self', 'content'])
         r.check('handle:body-frame', len(rows2) == 1 and 'serialize::OutputBuffer::push_content_body(self.buf, self.channel_id, content)' in rows2[0].effects, ctx.site(H0 + 'send_content_body'))
 
